@@ -93,6 +93,8 @@ def make(cfg, root, cached=False, seed=None):
     kind = cfg['kind']
     opts = dict(cfg['opts'])
     loc = location(cfg, root)
+    if '/' in cfg['name'] and kind in ('file', 'dir'):
+        os.makedirs(os.path.dirname(loc), exist_ok=True)      # an archive of the same name in another directory
     if cfg.get('link'):
         ensure_link(cfg, root)
     if kind == 'dict':
